@@ -180,6 +180,99 @@ theorem makeSecopError_rebuilt {t : Tables} (ht : TablesOk t) (cls : Option Str)
     · exact hplain
   · exact hplain
 
+/-! ## an error sent by a frappy node comes back as the same object -/
+
+theorem takeWhile_prefix {α : Type} (q : α → Bool) (w : List α) (c : α) (rest : List α)
+    (hw : w.all q = true) (hc : q c = false) : (w ++ c :: rest).takeWhile q = w := by
+  induction w with
+  | nil => simp [List.takeWhile, hc]
+  | cons a l ih =>
+    simp only [List.all_cons, Bool.and_eq_true] at hw
+    simp [List.takeWhile, hw.1, ih hw.2]
+
+theorem dropWhile_prefix {α : Type} (q : α → Bool) (w : List α) (c : α) (rest : List α)
+    (hw : w.all q = true) (hc : q c = false) : (w ++ c :: rest).dropWhile q = c :: rest := by
+  induction w with
+  | nil => simp [List.dropWhile, hc]
+  | cons a l ih =>
+    simp only [List.all_cons, Bool.and_eq_true] at hw
+    simp [List.dropWhile, hw.1, ih hw.2]
+
+theorem getLast?_mem {α : Type} {l : List α} {a : α} (h : l.getLast? = some a) : a ∈ l := by
+  have := dropLast_getLast? l a h
+  rw [← this]; simp
+
+/-- `FRAPPY_ERROR` takes a text `Cls: body` (class name of word characters, body without newline) apart again -/
+theorem matchFrappyError_format (w body : Str) (hw : w.all isWordChar = true) (hb : '\n' ∉ body) :
+    matchFrappyError (w ++ ':' :: ' ' :: body) = some (w, body) := by
+  unfold matchFrappyError
+  have hc : isWordChar ':' = false := by decide
+  rw [dropWhile_prefix isWordChar w ':' (' ' :: body) hw hc, takeWhile_prefix isWordChar w ':' (' ' :: body) hw hc]
+  simp only
+  have hl : ¬ body.getLast? = some '\n' := fun h => hb (getLast?_mem h)
+  simp only [hl, if_false]
+  have : body.contains '\n' = false := by
+    cases hcn : body.contains '\n' with
+    | false => rfl
+    | true => exact absurd (List.contains_iff_mem.mp hcn) hb
+  simp [hb]
+
+/-- what the round trip needs of an error object: its class is a class of the tables carrying its error name, and the
+class registered for that name carries it too -/
+def ErrOk (t : Tables) (e : ErrObj) : Prop :=
+  dictGet t.clsname2name e.pycls = some e.name ∧
+  ∃ primary, dictGet t.name2class e.name = some primary ∧ dictGet t.clsname2name primary = some e.name
+
+instance (t : Tables) (e : ErrObj) : Decidable (ErrOk t e) := by
+  unfold ErrOk
+  cases h : dictGet t.name2class e.name with
+  | none => exact isFalse (by rintro ⟨_, p, hp, _⟩; cases hp)
+  | some primary =>
+    by_cases h1 : dictGet t.clsname2name e.pycls = some e.name
+    · by_cases h2 : dictGet t.clsname2name primary = some e.name
+      · exact isTrue ⟨h1, primary, rfl, h2⟩
+      · exact isFalse (by rintro ⟨_, p, hp, hq⟩; cases hp; exact h2 hq)
+    · exact isFalse (fun hh => h1 hh.1)
+
+/-- the text does not itself begin with the name of another class of the same error name (the one ambiguity of the
+report format: `InternalError('ConfigError: x')` and `ConfigError('x')` are reported with the same words) -/
+def NoRefinementPrefix (t : Tables) (e : ErrObj) : Prop :=
+  ∀ w body, matchFrappyError e.arg = some (w, body) → w ≠ e.pycls → dictGet t.clsname2name w ≠ some e.name
+
+theorem makeSecopError_format {t : Tables} (e : ErrObj) (hok : ErrOk t e)
+    (hword : e.pycls.all isWordChar = true) (hnl : '\n' ∉ e.arg)
+    (hpre : dictGet t.name2class e.name = some e.pycls → NoRefinementPrefix t e) :
+    makeSecopError t (some e.name) (formatErr t e) = e := by
+  obtain ⟨hcls, primary, hprim, hpn⟩ := hok
+  have herrcls : classOfName t (some e.name) = primary := by simp [classOfName, hprim]
+  have hname : nameOfClass t primary = e.name := by simp [nameOfClass, hpn]
+  by_cases hp : primary = e.pycls
+  · -- the class registered for its name: the text travels as it is
+    subst hp
+    have hfmt : formatErr t e = e.arg := by simp [formatErr, hprim]
+    rw [hfmt]
+    unfold makeSecopError
+    simp only [herrcls, hname]
+    split
+    · rename_i w body hm
+      split
+      · rename_i n hn
+        split
+        · rename_i hcond
+          exact absurd (hcond.2 ▸ hn) (hpre hprim w body hm hcond.1)
+        · rfl
+      · rfl
+    · rfl
+  · -- a refinement: the class name is written in front and found again
+    have hne : ¬ dictGet t.name2class e.name = some e.pycls := by
+      rw [hprim]; intro h; exact hp (Option.some.inj h)
+    have hfmt : formatErr t e = e.pycls ++ ':' :: ' ' :: e.arg := by simp [formatErr, hne]
+    rw [hfmt]
+    unfold makeSecopError
+    simp only [herrcls, hname, matchFrappyError_format e.pycls e.arg hword hnl, hcls]
+    have : e.pycls ≠ primary := fun h => hp h.symm
+    simp [this]
+
 /-! ## the receive-loop body against the specification -/
 
 theorem resolve_eq_denoted {t : Tables} (ht : TablesOk t) (mp : Maps) (action : Str) (ident : Option Str) :
@@ -322,9 +415,10 @@ theorem classify_effective {t : Tables} (ht : TablesOk t) {mp : Maps} {imp : Str
 
 def mkCall (m p : Str) (item : Item V) (r : Reg) : Call V := ⟨r, m, p, item⟩
 
-/-- registrations left after the calls of `block` (those raising `UnregisterCallback` remove themselves) -/
+/-- registrations left after the calls of `block`: what the callbacks unregister through `unregister_callback`, and
+those raising `UnregisterCallback` remove themselves -/
 def applyBlock (behave : Call V → Outcome) (live : List Reg) (block : List (Call V)) : List Reg :=
-  block.foldl (fun l c => if behave c = .unregister then l.erase c.reg else l) live
+  block.foldl (afterCall behave) live
 
 theorem applyBlock_append (behave : Call V → Outcome) (live : List Reg) (b1 b2 : List (Call V)) :
     applyBlock behave live (b1 ++ b2) = applyBlock behave (applyBlock behave live b1) b2 := by
@@ -340,128 +434,140 @@ theorem foldl_fanoutStep (behave : Call V → Outcome) (m p : Str) (item : Item 
     simp only [List.foldl_cons, List.map_cons]
     obtain ⟨h1, h2, h3⟩ := ih (fanoutStep behave m p item s r)
     rw [h1, h2, h3]
-    unfold fanoutStep
-    cases hb : behave ⟨r, m, p, item⟩ <;> simp [applyBlock, mkCall, hb]
+    simp [fanoutStep, applyBlock, mkCall]
 
-theorem filter_erase_off (q : Reg → Bool) (l : List Reg) (r : Reg) (h : q r = false) :
-    (l.erase r).filter q = l.filter q := by
-  induction l with
-  | nil => simp
-  | cons a rest ih =>
-    rw [List.erase_cons]
-    by_cases ha : (a == r) = true
-    · have : a = r := by simpa using ha
-      subst this
-      simp [h]
-    · have ha' : (a == r) = false := by
-        cases hx : (a == r) with
-        | false => rfl
-        | true => exact absurd hx ha
-      simp only [ha', Bool.false_eq_true, if_false, List.filter_cons, ih]
+/-- the calls of one fan-out: every registration under `(k, key)` as the registry is when the fan-out begins -/
+def stageCalls (regs : List Reg) (k : Kind) (key : Key) (m p : Str) (item : Item V) : List (Call V) :=
+  (regs.filter (·.on k key)).map (mkCall m p item)
 
-theorem filter_applyBlock (behave : Call V → Outcome) (q : Reg → Bool) (live : List Reg) (block : List (Call V))
-    (h : ∀ c ∈ block, q c.reg = false) : (applyBlock behave live block).filter q = live.filter q := by
-  induction block generalizing live with
-  | nil => simp [applyBlock]
-  | cons c rest ih =>
-    have hc := h c (by simp)
-    have hrest : ∀ c ∈ rest, q c.reg = false := fun c' hc' => h c' (by simp [hc'])
-    simp only [applyBlock, List.foldl_cons]
-    by_cases hb : behave c = .unregister
-    · simp only [hb, if_true]
-      have := ih (live.erase c.reg) hrest
-      simp only [applyBlock] at this
-      rw [this, filter_erase_off q live c.reg hc]
-    · simp only [hb, if_false]
-      exact ih live hrest
+theorem fanout_spec (behave : Call V → Outcome) (k : Kind) (key : Key) (m p : Str) (item : Item V) (s : State V) :
+    (fanout behave k key m p item s).cache = s.cache ∧
+    (fanout behave k key m p item s).calls = s.calls ++ stageCalls s.regs k key m p item ∧
+    (fanout behave k key m p item s).regs = applyBlock behave s.regs (stageCalls s.regs k key m p item) :=
+  foldl_fanoutStep behave m p item _ s
 
-theorem stage (behave : Call V → Outcome) (m p : Str) (item : Item V) (regs0 : List Reg) (bs : List (Call V))
-    (s : State V) (kind : Kind) (key : Key)
-    (hregs : s.regs = applyBlock behave regs0 bs) (hoff : ∀ c ∈ bs, c.reg.on kind key = false) :
-    (fanout behave kind key m p item s).cache = s.cache ∧
-    (fanout behave kind key m p item s).calls = s.calls ++ (regs0.filter (·.on kind key)).map (mkCall m p item) ∧
-    (fanout behave kind key m p item s).regs =
-      applyBlock behave regs0 (bs ++ (regs0.filter (·.on kind key)).map (mkCall m p item)) := by
-  unfold fanout
-  obtain ⟨h1, h2, h3⟩ := foldl_fanoutStep behave m p item (s.regs.filter (·.on kind key)) s
-  have hf : s.regs.filter (·.on kind key) = regs0.filter (·.on kind key) := by
-    rw [hregs]; exact filter_applyBlock behave _ regs0 bs hoff
-  rw [hf] at h1 h2 h3 ⊢
-  refine ⟨h1, h2, ?_⟩
-  rw [h3, hregs, applyBlock_append]
+/-- the calls of a sequence of fan-outs, each reading the registry the earlier ones left -/
+def blockFrom (behave : Call V → Outcome) (m p : Str) (item : Item V) : List Reg → List (Kind × Key) → List (Call V)
+  | _, [] => []
+  | regs, st :: rest =>
+    stageCalls regs st.1 st.2 m p item ++
+      blockFrom behave m p item (applyBlock behave regs (stageCalls regs st.1 st.2 m p item)) rest
 
 /-- the calls one message for `(m, p)` causes, in code order -/
-def blockOf (regs : List Reg) (m p : Str) (item : Item V) : List (Call V) :=
-  (regs.filter (·.on .item .node)).map (mkCall m p item) ++
-  (regs.filter (·.on .item (.module m))).map (mkCall m p item) ++
-  (regs.filter (·.on .item (.param m p))).map (mkCall m p item) ++
-  (regs.filter (·.on .event .node)).map (mkCall m p item) ++
-  (regs.filter (·.on .event (.module m))).map (mkCall m p item) ++
-  (regs.filter (·.on .event (.param m p))).map (mkCall m p item)
+def blockOf (behave : Call V → Outcome) (regs : List Reg) (m p : Str) (item : Item V) : List (Call V) :=
+  blockFrom behave m p item regs (stages m p)
 
-theorem on_excl {r : Reg} {k k' : Kind} {key key' : Key} (h : r.on k key = true) (hne : k ≠ k' ∨ key ≠ key') :
-    r.on k' key' = false := by
-  simp only [Reg.on, Bool.and_eq_true, beq_iff_eq] at h
-  obtain ⟨h1, h2⟩ := h
-  simp only [Reg.on, Bool.and_eq_false_iff, beq_eq_false_iff_ne, ne_eq]
-  rcases hne with hne | hne
-  · left; rw [h1]; exact hne
-  · right; rw [h2]; exact hne
+theorem foldl_fanout (behave : Call V → Outcome) (m p : Str) (item : Item V) (sts : List (Kind × Key)) (s : State V) :
+    (sts.foldl (fun s st => fanout behave st.1 st.2 m p item s) s).cache = s.cache ∧
+    (sts.foldl (fun s st => fanout behave st.1 st.2 m p item s) s).calls =
+      s.calls ++ blockFrom behave m p item s.regs sts ∧
+    (sts.foldl (fun s st => fanout behave st.1 st.2 m p item s) s).regs =
+      applyBlock behave s.regs (blockFrom behave m p item s.regs sts) := by
+  induction sts generalizing s with
+  | nil => simp [blockFrom, applyBlock]
+  | cons st rest ih =>
+    simp only [List.foldl_cons, blockFrom]
+    obtain ⟨a, b, c⟩ := fanout_spec behave st.1 st.2 m p item s
+    obtain ⟨a', b', c'⟩ := ih (fanout behave st.1 st.2 m p item s)
+    refine ⟨by rw [a', a], ?_, ?_⟩
+    · rw [b', b, c, List.append_assoc]
+    · rw [c', c, applyBlock_append]
 
-theorem mem_stage_on {regs : List Reg} {k : Kind} {key : Key} {m p : Str} {item : Item V} {c : Call V}
-    (h : c ∈ (regs.filter (·.on k key)).map (mkCall m p item)) : c.reg.on k key = true ∧ c.m = m ∧ c.p = p ∧ c.item = item := by
-  simp only [List.mem_map, List.mem_filter] at h
+theorem updateValue_spec (behave : Call V → Outcome) (m p : Str) (item : Item V) (s : State V) :
+    (updateValue behave m p item s).cache = dictSet s.cache (m, p) item ∧
+    (updateValue behave m p item s).calls = s.calls ++ blockOf behave s.regs m p item ∧
+    (updateValue behave m p item s).regs = applyBlock behave s.regs (blockOf behave s.regs m p item) := by
+  unfold updateValue blockOf
+  exact foldl_fanout behave m p item (stages m p) { s with cache := dictSet s.cache (m, p) item }
+
+theorem on_iff (r : Reg) (k : Kind) (key : Key) : r.on k key = true ↔ (r.kind, r.key) = (k, key) := by
+  simp [Reg.on]
+
+theorem mem_stageCalls {regs : List Reg} {k : Kind} {key : Key} {m p : Str} {item : Item V} {c : Call V}
+    (h : c ∈ stageCalls regs k key m p item) : c.reg.on k key = true ∧ c.m = m ∧ c.p = p ∧ c.item = item := by
+  simp only [stageCalls, List.mem_map, List.mem_filter] at h
   obtain ⟨r, ⟨_, hr⟩, hc⟩ := h
   subst hc
   exact ⟨hr, rfl, rfl, rfl⟩
 
-theorem updateValue_spec (behave : Call V → Outcome) (m p : Str) (item : Item V) (s : State V) :
-    (updateValue behave m p item s).cache = dictSet s.cache (m, p) item ∧
-    (updateValue behave m p item s).calls = s.calls ++ blockOf s.regs m p item ∧
-    (updateValue behave m p item s).regs = applyBlock behave s.regs (blockOf s.regs m p item) := by
-  unfold updateValue blockOf
-  simp only
-  generalize hs0 : ({ s with cache := dictSet s.cache (m, p) item } : State V) = s0
-  have hr0 : s0.regs = applyBlock behave s.regs [] := by subst hs0; simp [applyBlock]
-  have hc0 : s0.calls = s.calls := by subst hs0; rfl
-  have hk0 : s0.cache = dictSet s.cache (m, p) item := by subst hs0; rfl
-  obtain ⟨a1, b1, c1⟩ := stage behave m p item s.regs [] s0 .item .node hr0 (by simp)
-  obtain ⟨a2, b2, c2⟩ := stage behave m p item s.regs _ _ .item (.module m) c1 (by
-    intro c hc; simp only [List.nil_append] at hc
-    exact on_excl (mem_stage_on hc).1 (Or.inr (by simp)))
-  obtain ⟨a3, b3, c3⟩ := stage behave m p item s.regs _ _ .item (.param m p) c2 (by
-    intro c hc; simp only [List.nil_append, List.mem_append] at hc
-    rcases hc with hc | hc
-    · exact on_excl (mem_stage_on hc).1 (Or.inr (by simp))
-    · exact on_excl (mem_stage_on hc).1 (Or.inr (by simp)))
-  obtain ⟨a4, b4, c4⟩ := stage behave m p item s.regs _ _ .event .node c3 (by
-    intro c hc; simp only [List.nil_append, List.mem_append] at hc
-    rcases hc with (hc | hc) | hc <;> exact on_excl (mem_stage_on hc).1 (Or.inl (by simp)))
-  obtain ⟨a5, b5, c5⟩ := stage behave m p item s.regs _ _ .event (.module m) c4 (by
-    intro c hc; simp only [List.nil_append, List.mem_append] at hc
-    rcases hc with ((hc | hc) | hc) | hc
-    · exact on_excl (mem_stage_on hc).1 (Or.inl (by simp))
-    · exact on_excl (mem_stage_on hc).1 (Or.inl (by simp))
-    · exact on_excl (mem_stage_on hc).1 (Or.inl (by simp))
-    · exact on_excl (mem_stage_on hc).1 (Or.inr (by simp)))
-  obtain ⟨a6, b6, c6⟩ := stage behave m p item s.regs _ _ .event (.param m p) c5 (by
-    intro c hc; simp only [List.nil_append, List.mem_append] at hc
-    rcases hc with (((hc | hc) | hc) | hc) | hc
-    · exact on_excl (mem_stage_on hc).1 (Or.inl (by simp))
-    · exact on_excl (mem_stage_on hc).1 (Or.inl (by simp))
-    · exact on_excl (mem_stage_on hc).1 (Or.inl (by simp))
-    · exact on_excl (mem_stage_on hc).1 (Or.inr (by simp))
-    · exact on_excl (mem_stage_on hc).1 (Or.inr (by simp)))
-  refine ⟨?_, ?_, ?_⟩
-  · rw [a6, a5, a4, a3, a2, a1, hk0]
-  · rw [b6, b5, b4, b3, b2, b1, hc0]; simp only [List.append_assoc]
-  · rw [c6]; simp only [List.nil_append, List.append_assoc]
+theorem mem_blockFrom (behave : Call V → Outcome) {m p : Str} {item : Item V} {sts : List (Kind × Key)} {regs : List Reg}
+    {c : Call V} (h : c ∈ blockFrom behave m p item regs sts) :
+    ∃ st ∈ sts, c.reg.on st.1 st.2 = true ∧ c.m = m ∧ c.p = p ∧ c.item = item := by
+  induction sts generalizing regs with
+  | nil => simp [blockFrom] at h
+  | cons st rest ih =>
+    simp only [blockFrom, List.mem_append] at h
+    rcases h with h | h
+    · exact ⟨st, by simp, mem_stageCalls h⟩
+    · obtain ⟨st', hm, hh⟩ := ih h
+      exact ⟨st', by simp [hm], hh⟩
 
-theorem count_stage [DecidableEq V] (regs : List Reg) (k : Kind) (key : Key) (m p : Str) (item : Item V) (r : Reg) :
-    (((regs.filter (·.on k key)).map (mkCall m p item)).map (·.reg)).count r =
-      if r.on k key = true then regs.count r else 0 := by
-  have : ((regs.filter (·.on k key)).map (mkCall m p item)).map (·.reg) = regs.filter (·.on k key) := by
-    simp [List.map_map, mkCall, Function.comp_def]
+/-! ### how often a registration occurs -/
+
+theorem count_erase_le (l : List Reg) (a r : Reg) : (l.erase a).count r ≤ l.count r := by
+  rw [List.count_erase]; exact Nat.sub_le _ _
+
+theorem count_erase_ne (l : List Reg) {a r : Reg} (h : a ≠ r) : (l.erase a).count r = l.count r := by
+  rw [List.count_erase]
+  have : (a == r) = false := by simpa using h
+  simp [this]
+
+theorem count_applyRemoves_le (l rs : List Reg) (r : Reg) : (applyRemoves l rs).count r ≤ l.count r := by
+  induction rs generalizing l with
+  | nil => simp [applyRemoves]
+  | cons a rest ih =>
+    simp only [applyRemoves, List.foldl_cons]
+    exact Nat.le_trans (ih (l.erase a)) (count_erase_le l a r)
+
+theorem count_applyRemoves_eq (l rs : List Reg) (r : Reg) (h : r ∉ rs) : (applyRemoves l rs).count r = l.count r := by
+  induction rs generalizing l with
+  | nil => simp [applyRemoves]
+  | cons a rest ih =>
+    simp only [List.mem_cons, not_or] at h
+    simp only [applyRemoves, List.foldl_cons]
+    have := ih (l.erase a) h.2
+    simp only [applyRemoves] at this
+    rw [this, count_erase_ne l (fun e => h.1 e.symm)]
+
+theorem count_afterCall_le (behave : Call V → Outcome) (l : List Reg) (c : Call V) (r : Reg) :
+    (afterCall behave l c).count r ≤ l.count r := by
+  unfold afterCall
+  simp only
+  split
+  · exact Nat.le_trans (count_erase_le _ _ _) (count_applyRemoves_le _ _ _)
+  · exact count_applyRemoves_le _ _ _
+
+theorem count_afterCall_eq (behave : Call V → Outcome) (l : List Reg) (c : Call V) (r : Reg)
+    (h1 : r ∉ (behave c).removes) (h2 : c.reg ≠ r) : (afterCall behave l c).count r = l.count r := by
+  unfold afterCall
+  simp only
+  split
+  · rw [count_erase_ne _ h2, count_applyRemoves_eq _ _ _ h1]
+  · exact count_applyRemoves_eq _ _ _ h1
+
+theorem count_applyBlock_le (behave : Call V → Outcome) (l : List Reg) (block : List (Call V)) (r : Reg) :
+    (applyBlock behave l block).count r ≤ l.count r := by
+  induction block generalizing l with
+  | nil => simp [applyBlock]
+  | cons c rest ih =>
+    simp only [applyBlock, List.foldl_cons]
+    exact Nat.le_trans (ih (afterCall behave l c)) (count_afterCall_le behave l c r)
+
+theorem count_applyBlock_eq (behave : Call V → Outcome) (l : List Reg) (block : List (Call V)) (r : Reg)
+    (h : ∀ c ∈ block, r ∉ (behave c).removes ∧ c.reg ≠ r) : (applyBlock behave l block).count r = l.count r := by
+  induction block generalizing l with
+  | nil => simp [applyBlock]
+  | cons c rest ih =>
+    simp only [applyBlock, List.foldl_cons]
+    have hc := h c (by simp)
+    have := ih (afterCall behave l c) (fun c' hc' => h c' (by simp [hc']))
+    simp only [applyBlock] at this
+    rw [this, count_afterCall_eq behave l c r hc.1 hc.2]
+
+theorem count_stage (regs : List Reg) (k : Kind) (key : Key) (m p : Str) (item : Item V) (r : Reg) :
+    ((stageCalls regs k key m p item).map (·.reg)).count r = if r.on k key = true then regs.count r else 0 := by
+  have : (stageCalls regs k key m p item).map (·.reg) = regs.filter (·.on k key) := by
+    simp [stageCalls, List.map_map, mkCall, Function.comp_def]
   rw [this]
   by_cases h : r.on k key = true
   · simp only [h, if_true]; exact List.count_filter h
@@ -469,25 +575,68 @@ theorem count_stage [DecidableEq V] (regs : List Reg) (k : Kind) (key : Key) (m 
     intro hm
     exact h (List.mem_filter.1 hm).2
 
-theorem blockOf_once [DecidableEq V] (regs : List Reg) (m p : Str) (item : Item V) :
-    BlockOnce regs m p item (blockOf regs m p item) := by
+theorem count_blockFrom_zero (behave : Call V → Outcome) (m p : Str) (item : Item V) (sts : List (Kind × Key))
+    (regs : List Reg) (r : Reg) (h : (r.kind, r.key) ∉ sts) :
+    ((blockFrom behave m p item regs sts).map (·.reg)).count r = 0 := by
+  rw [List.count_eq_zero]
+  intro hm
+  obtain ⟨c, hc, hr⟩ := List.mem_map.1 hm
+  obtain ⟨st, hst, hon, _⟩ := mem_blockFrom behave hc
+  rw [hr, on_iff] at hon
+  exact h (hon ▸ hst)
+
+/-- over distinct fan-outs a registration is called at most as often as it is registered when the message arrives, and
+exactly as often unless one of the calls unregisters it -/
+theorem count_blockFrom (behave : Call V → Outcome) (m p : Str) (item : Item V) (sts : List (Kind × Key))
+    (hnd : sts.Nodup) (regs : List Reg) (r : Reg) :
+    ((blockFrom behave m p item regs sts).map (·.reg)).count r ≤ regs.count r ∧
+    ((r.kind, r.key) ∈ sts → (∀ c ∈ blockFrom behave m p item regs sts, r ∉ (behave c).removes) →
+      ((blockFrom behave m p item regs sts).map (·.reg)).count r = regs.count r) := by
+  induction sts generalizing regs with
+  | nil => simp [blockFrom]
+  | cons st rest ih =>
+    obtain ⟨hst, hrest⟩ := List.nodup_cons.1 hnd
+    simp only [blockFrom, List.map_append, List.count_append, count_stage]
+    by_cases hon : r.on st.1 st.2 = true
+    · have hrs : (r.kind, r.key) = st := by rw [on_iff] at hon; exact hon
+      have hz := count_blockFrom_zero behave m p item rest
+        (applyBlock behave regs (stageCalls regs st.1 st.2 m p item)) r (hrs ▸ hst)
+      simp [hon, hz]
+    · simp only [hon, if_false, Nat.zero_add, Bool.false_eq_true]
+      obtain ⟨ih1, ih2⟩ := ih hrest (applyBlock behave regs (stageCalls regs st.1 st.2 m p item))
+      refine ⟨Nat.le_trans ih1 (count_applyBlock_le behave regs _ r), ?_⟩
+      intro hmem hno
+      have hin : (r.kind, r.key) ∈ rest := by
+        rcases List.mem_cons.1 hmem with h | h
+        · exact absurd ((on_iff r st.1 st.2).2 h) hon
+        · exact h
+      rw [ih2 hin (fun c hc => hno c (List.mem_append_right _ hc))]
+      apply count_applyBlock_eq
+      intro c hc
+      refine ⟨hno c (List.mem_append_left _ hc), ?_⟩
+      intro he
+      have := (mem_stageCalls hc).1
+      rw [he] at this
+      exact hon this
+
+theorem stages_nodup (m p : Str) : (stages m p).Nodup := by
+  simp [stages]
+
+theorem mem_stages (m p : Str) (r : Reg) : (r.kind, r.key) ∈ stages m p ↔ r.key ∈ levels m p := by
+  obtain ⟨kind, key, cb⟩ := r
+  cases kind <;> simp [stages, levels]
+
+theorem blockOf_once (behave : Call V → Outcome) (regs : List Reg) (m p : Str) (item : Item V) :
+    BlockOnce behave regs m p item (blockOf behave regs m p item) := by
   constructor
   · intro c hc
-    simp only [blockOf, List.mem_append] at hc
-    have key_of : ∀ {k : Kind} {key : Key}, c.reg.on k key = true → c.reg.key = key := by
-      intro k key h
-      simp only [Reg.on, Bool.and_eq_true, beq_iff_eq] at h
-      exact h.2
-    rcases hc with ((((hc | hc) | hc) | hc) | hc) | hc <;>
-      · obtain ⟨hon, h1, h2, h3⟩ := mem_stage_on hc
-        refine ⟨h1, h2, h3, ?_⟩
-        rw [key_of hon]; simp [levels]
+    obtain ⟨st, hst, hon, h1, h2, h3⟩ := mem_blockFrom behave hc
+    refine ⟨h1, h2, h3, ?_⟩
+    rw [on_iff] at hon
+    exact (mem_stages m p c.reg).1 (hon ▸ hst)
   · intro r hr
-    simp only [blockOf, List.map_append, List.count_append, count_stage]
-    simp only [levels, List.mem_cons, List.mem_nil_iff, or_false] at hr
-    obtain ⟨kind, key, cb⟩ := r
-    simp only at hr
-    cases kind <;> rcases hr with hr | hr | hr <;> subst hr <;> simp [Reg.on]
+    obtain ⟨h1, h2⟩ := count_blockFrom behave m p item (stages m p) (stages_nodup m p) regs r
+    exact ⟨h1, h2 ((mem_stages m p r).2 hr)⟩
 
 /-! ## cache keys stay unique -/
 
@@ -662,17 +811,18 @@ theorem effectiveFor_some {t : Tables} (ht : TablesOk t) (mp : Maps) (imp : Str 
 /-! ## one event -/
 
 /-- the callback calls one event causes -/
-def stepBlock (t : Tables) (mp : Maps) (imp : Str → Str → J → Option V) (s : State V) : Ev J → List (Call V)
+def stepBlock (t : Tables) (mp : Maps) (imp : Str → Str → J → Option V) (behave : Call V → Outcome) (s : State V) :
+    Ev J → List (Call V)
   | .line now (.msg msg) =>
     match classify t mp imp now msg with
-    | .accepted a => blockOf s.regs a.m a.p a.item
+    | .accepted a => blockOf behave s.regs a.m a.p a.item
     | _ => []
   | .line _ .garbage => []
   | .register r => (immediateArgs s.cache r.key).map (callOf r)
   | .unregister _ => []
 
 theorem step_calls (t : Tables) (mp : Maps) (imp : Str → Str → J → Option V) (behave : Call V → Outcome) (s : State V)
-    (ev : Ev J) : (step t mp imp behave s ev).calls = s.calls ++ stepBlock t mp imp s ev := by
+    (ev : Ev J) : (step t mp imp behave s ev).calls = s.calls ++ stepBlock t mp imp behave s ev := by
   cases ev with
   | line now l =>
     cases l with
@@ -687,7 +837,7 @@ theorem step_calls (t : Tables) (mp : Maps) (imp : Str → Str → J → Option 
   | unregister r => simp [step, unregister, stepBlock]
 
 theorem step_regs (t : Tables) (mp : Maps) (imp : Str → Str → J → Option V) (behave : Call V → Outcome) (s : State V)
-    (ev : Ev J) : (step t mp imp behave s ev).regs = liveAfter behave s.regs ev (stepBlock t mp imp s ev) := by
+    (ev : Ev J) : (step t mp imp behave s ev).regs = liveAfter behave s.regs ev (stepBlock t mp imp behave s ev) := by
   cases ev with
   | line now l =>
     cases l with
@@ -743,7 +893,7 @@ theorem step_keysNodup (t : Tables) (mp : Maps) (imp : Str → Str → J → Opt
 
 theorem step_ok [DecidableEq V] {t : Tables} (ht : TablesOk t) (mp : Maps) (imp : Str → Str → J → Option V)
     (behave : Call V → Outcome) (s : State V) (ev : Ev J) (hk : KeysNodup s.cache) :
-    StepOk t mp imp s.cache s.regs ev (stepBlock t mp imp s ev) (step t mp imp behave s ev).cache := by
+    StepOk t mp imp behave s.cache s.regs ev (stepBlock t mp imp behave s ev) (step t mp imp behave s ev).cache := by
   rw [step_cache]
   cases ev with
   | unregister r => exact ⟨fun _ => rfl, rfl⟩
@@ -761,7 +911,7 @@ theorem step_ok [DecidableEq V] {t : Tables} (ht : TablesOk t) (mp : Maps) (imp 
         have he := classify_accepted ht hc
         have hf : effectiveFor mp imp (.msg msg) = some (a.m, a.p) := (effectiveFor_some ht mp imp now msg a.m a.p).2 ⟨_, he⟩
         simp only [hf]
-        refine ⟨a.item, dictGet_dictSet_self _ _ _, he, fun k hne => dictGet_dictSet_ne _ _ _ _ hne, blockOf_once _ _ _ _⟩
+        refine ⟨a.item, dictGet_dictSet_self _ _ _, he, fun k hne => dictGet_dictSet_ne _ _ _ _ hne, blockOf_once _ _ _ _ _⟩
       | ignored =>
         have hf : effectiveFor mp imp (.msg msg) = none := by
           cases hx : effectiveFor mp imp (.msg msg) with
@@ -789,7 +939,7 @@ theorem step_ok [DecidableEq V] {t : Tables} (ht : TablesOk t) (mp : Maps) (imp 
 def history (t : Tables) (mp : Maps) (imp : Str → Str → J → Option V) (behave : Call V → Outcome) (s : State V) :
     List (Ev J) → List (Ev J × List (Call V) × Cache V)
   | [] => []
-  | ev :: rest => (ev, stepBlock t mp imp s ev, (step t mp imp behave s ev).cache) ::
+  | ev :: rest => (ev, stepBlock t mp imp behave s ev, (step t mp imp behave s ev).cache) ::
       history t mp imp behave (step t mp imp behave s ev) rest
 
 /-! ## the monitors decide the specification -/
@@ -837,8 +987,8 @@ theorem sameCacheB_iff (c c' : Cache V) : sameCacheB c c' = true ↔ SameCache c
     intro k _
     simp [h k]
 
-theorem blockOnceB_iff (live : List Reg) (m p : Str) (item : Item V) (block : List (Call V)) :
-    blockOnceB live m p item block = true ↔ BlockOnce live m p item block := by
+theorem blockOnceB_iff (behave : Call V → Outcome) (live : List Reg) (m p : Str) (item : Item V) (block : List (Call V)) :
+    blockOnceB behave live m p item block = true ↔ BlockOnce behave live m p item block := by
   unfold blockOnceB BlockOnce
   rw [Bool.and_eq_true]
   constructor
@@ -850,13 +1000,17 @@ theorem blockOnceB_iff (live : List Reg) (m p : Str) (item : Item V) (block : Li
     · intro r hr
       by_cases hm : r ∈ live ++ block.map (·.reg)
       · have := (List.all_eq_true.1 h2) r hm
-        simp only [Bool.or_eq_true, Bool.not_eq_true', beq_iff_eq] at this
-        rcases this with h | h
-        · have : (levels m p).contains r.key = true := by simpa using hr
-          rw [this] at h; cases h
+        have hlev : (levels m p).contains r.key = true := by simpa using hr
+        simp only [hlev, Bool.not_true, Bool.false_or, Bool.and_eq_true, decide_eq_true_eq, Bool.or_eq_true,
+          beq_iff_eq] at this
+        refine ⟨this.1, fun hno => ?_⟩
+        rcases this.2 with h | h
+        · obtain ⟨c, hc, hcr⟩ := List.any_eq_true.1 h
+          exact absurd (by simpa using hcr) (hno c hc)
         · exact h
       · simp only [List.mem_append, not_or] at hm
         rw [List.count_eq_zero.2 hm.2, List.count_eq_zero.2 hm.1]
+        exact ⟨Nat.le_refl _, fun _ => rfl⟩
   · rintro ⟨h1, h2⟩
     refine ⟨?_, ?_⟩
     · rw [List.all_eq_true]
@@ -866,16 +1020,28 @@ theorem blockOnceB_iff (live : List Reg) (m p : Str) (item : Item V) (block : Li
     · rw [List.all_eq_true]
       intro r _
       by_cases hr : r.key ∈ levels m p
-      · simp [h2 r hr]
-      · simp [hr]
+      · obtain ⟨hle, himp⟩ := h2 r hr
+        have hlev : (levels m p).contains r.key = true := by simpa using hr
+        simp only [hlev, Bool.not_true, Bool.false_or, Bool.and_eq_true, decide_eq_true_eq, Bool.or_eq_true, beq_iff_eq]
+        refine ⟨hle, ?_⟩
+        by_cases hany : block.any (fun c => (behave c).removes.contains r) = true
+        · exact Or.inl hany
+        · right
+          apply himp
+          intro c hc hmem
+          apply hany
+          exact List.any_eq_true.2 ⟨c, hc, by simpa using hmem⟩
+      · have : (levels m p).contains r.key = false := by simpa using hr
+        simp only [this, Bool.not_false, Bool.true_or]
 
 theorem effectiveB_iff (t : Tables) (mp : Maps) (imp : Str → Str → J → Option V) (now : Int) (msg : Msg J)
     (m p : Str) (item : Item V) : effectiveB t mp imp now msg m p item = true ↔ Effective t mp imp now msg m p item := by
   unfold effectiveB Effective
   simp [and_assoc]
 
-theorem stepOkB_iff (t : Tables) (mp : Maps) (imp : Str → Str → J → Option V) (c : Cache V) (live : List Reg) (ev : Ev J)
-    (block : List (Call V)) (c' : Cache V) : stepOkB t mp imp c live ev block c' = true ↔ StepOk t mp imp c live ev block c' := by
+theorem stepOkB_iff (t : Tables) (mp : Maps) (imp : Str → Str → J → Option V) (behave : Call V → Outcome) (c : Cache V)
+    (live : List Reg) (ev : Ev J) (block : List (Call V)) (c' : Cache V) :
+    stepOkB t mp imp behave c live ev block c' = true ↔ StepOk t mp imp behave c live ev block c' := by
   unfold stepOkB StepOk
   cases ev with
   | unregister r => simp [sameCacheB_iff, List.isEmpty_iff]
@@ -913,7 +1079,7 @@ theorem judgeFrom_iff (t : Tables) (mp : Maps) (imp : Str → Str → J → Opti
   | cons st rest ih =>
     obtain ⟨ev, block, c'⟩ := st
     unfold judgeFrom
-    by_cases hs : stepOkB t mp imp c live ev block c' = true
+    by_cases hs : stepOkB t mp imp behave c live ev block c' = true
     · simp only [hs, if_true]
       rw [ih]
       constructor
